@@ -76,7 +76,9 @@ func (c *ControlWriter) Write(p []byte) (n int, err error) {
 	if c.n+len(p) > c.limit {
 		return 0, ErrControlOverflow
 	}
-	return c.w.Write(p)
+	n, err = c.w.Write(p)
+	c.n += n
+	return n, err
 }
 
 // Flush flushes all buffered data to the underlying io.Writer.
